@@ -316,9 +316,10 @@ class TFLiteSerialiser:
                 if "dilation" in attrs:
                     attrs["dilation_h_factor"] = attrs["dilation"][1]
                     attrs["dilation_w_factor"] = attrs["dilation"][2]
-                if "channel_multiplier" in attrs:
-                    attrs["depth_multiplier"] = attrs["channel_multiplier"]
                 attrs["fused_activation_function"] = op.activation.op_type if op.activation is not None else None
+            if "channel_multiplier" in attrs:
+                # the reader replaces an implicit depth multiplier (0) by the calculated one and keeps the original value here
+                attrs["depth_multiplier"] = attrs["channel_multiplier"]
 
             # Serialize VarHandleOptions (only op that have attributes with type String)
             if "container" in attrs:
